@@ -35,6 +35,13 @@ theorem binaryOp_length {α β γ} (f : α → β → KOut γ) (a : Arr α) (b :
     exact zipSlotM_length _ a b c h
   · rw [binaryOp_len_ne f a b hl] at h; cases h
 
+theorem tryBinaryOp_length {α β γ} (d : γ) (f : α → β → KOut γ) (a : Arr α) (b : Arr β)
+    (c : Arr γ) (h : tryBinaryOp d f a b = .ok c) : c.length = a.length ∧ a.length = b.length := by
+  unfold tryBinaryOp at h
+  split at h
+  · cases h
+  · exact zipSlotM_length _ a b c h
+
 theorem fromData_length {α} (r : List α) (v : List Bool) (h : r.length = v.length) :
     (fromData r v).length = r.length := by
   induction r generalizing v with
@@ -174,7 +181,7 @@ theorem arith_len (op : ArithOp) (ca cb c : Col) (h : Col.arith op ca cb = .ok c
   cases hk : arithK op (wa.max wb) a b <;> simp [hk, KOut.map] at h
   subst h
   unfold arithK at hk
-  obtain ⟨h1, h2⟩ := binaryOp_length _ _ _ _ hk
+  obtain ⟨h1, h2⟩ := tryBinaryOp_length _ _ _ _ _ hk
   simp only [Col.len]
   cases hd : op.safens <;> simp [hd, safenDividend] at h2 <;> exact ⟨h1, h2⟩
 
@@ -220,8 +227,8 @@ theorem neg_len (ca c : Col) (h : Col.neg ca = .ok c) : c.len = ca.len := by
   cases ca with
   | int w x =>
     simp only [Col.neg] at h
-    cases hk : unaryOp (negW w) x <;> simp only [hk] at h <;> cases h
-    exact unaryOp_length _ _ _ hk
+    cases hk : tryUnaryOp 0 (negW w) x <;> simp only [hk] at h <;> cases h
+    exact tryUnaryOp_length _ _ _ _ hk
   | null k => simp [Col.neg] at h
   | bool x => simp [Col.neg] at h
   | str x => simp [Col.neg] at h
